@@ -254,7 +254,7 @@ void profile_convert(const json& plan, Ctx& ctx) {
 			sp.raw = jbool(st, "raw", true);
 			SaveOut so = saveNif(*nif, sp);
 			ctx.hist.str(so.bytes);
-			auto fresh = std::make_unique<NifFile>();
+			auto fresh = restartObject(nif, ctx);
 			if (loadNif(*fresh, so.bytes).rc != 0) ctx.viol("conv:converted-file-not-loadable", where + ": the converted model does not reload");
 			nif = std::move(fresh);
 			ctx.fault("F-RESTART");
